@@ -555,7 +555,12 @@ class BaseProject(object, metaclass=ABCMeta):
             if task.target_component is not None:
                 # 3-1. Set target component of workplace if target component is ready
                 component = task.target_component
-                if component.is_ready():
+                # A component whose task was given workers earlier in this step must stay
+                # where that task's facility is, so it is not a candidate for moving.
+                if component.is_ready() and all(
+                    len(t.allocated_worker_list) == 0
+                    for t in component.targeted_task_list
+                ):
                     candidate_workplace_list = task.allocated_workplace_list
                     candidate_workplace_list = sort_workplace_list(
                         candidate_workplace_list,
